@@ -182,15 +182,20 @@ func runC15Wmpt(ops []string) CaseResult {
 // ---- generator ------------------------------------------------------------------------------------------
 
 // c15Sources builds a small trie and returns real encodings: stored nodes, a proof (with its block), a path export.
-func c15Sources(r *rand.Rand) (nodes [][]byte, proof []byte, block uint64, export []byte) {
+func c15Sources(r *rand.Rand, comb bool) (nodes [][]byte, proof []byte, block uint64, export []byte) {
 	st := newMemStore()
 	t := wmpt.New(nil, st)
 	pool := wkeyPool(r, 2+r.Intn(6))
+	if comb {
+		pool = wcombPool(r, 60+r.Intn(4)) // the longest proof / export paths: key 0 has a sibling at every nibble depth
+	}
 	var total uint64
+	content := wcontent{}
 	for i, k := range pool {
 		v := wgenValue(r, i, false)
 		_ = t.Update([]byte(k), v, wvalWeight(v))
 		total += wvalWeight(v)
+		content[k] = went{v, wvalWeight(v)}
 	}
 	b, _ := t.Commit(r.Intn(5) - 1)
 	_ = b.Commit(true)
@@ -206,12 +211,23 @@ func c15Sources(r *rand.Rand) (nodes [][]byte, proof []byte, block uint64, expor
 		}
 	}
 	block = 1 + uint64(r.Intn(int(total)))
-	_, proof, _ = t.GetBlockProof(block)
 	nk := r.Intn(3)
 	var keys [][]byte
 	for i := 0; i < nk; i++ {
 		keys = append(keys, []byte(pool[r.Intn(len(pool))]))
 	}
+	if comb {
+		// the first block of key 0, and key 0 among the exported paths
+		var cum uint64
+		for _, k := range content.sortedKeys() {
+			if k == pool[0] {
+				block = cum + 1
+			}
+			cum += content[k].w
+		}
+		keys = append(keys, []byte(pool[0]))
+	}
+	_, proof, _ = t.GetBlockProof(block)
 	export, _ = t.GetPath(keys)
 	hn, _ := wmpt.NewHashNode(sha3sum([]byte("x")), 7).Serialize()
 	nn, _ := wmpt.New(nil, nil).GetRoot().Serialize()
@@ -372,8 +388,94 @@ func pairValues(data []byte) [][]byte {
 	return vs
 }
 
+// substituteKinds: pair i of a proof / export replaced by a well-formed node of every OTHER kind (hash node, value
+// node, branch, short node, nil node) whose claimed Hash field — and weight — are those of the node it replaces, i.e. the
+// hash the parent expects, everything else intact. Truncations, byte changes and kind-key changes never produce these:
+// they pass the "child hash mismatch" test of the importer and reach whatever it does with the accepted child next
+// (e.g. a type assertion on the kind the parent's entry announced).
+func substituteKinds(r *rand.Rand, vals [][]byte, i int) [][]byte {
+	var h []byte
+	var w uint64
+	kind := ""
+	func() {
+		defer func() { _ = recover() }()
+		n, err := wmpt.DeserializeNode(append([]byte(nil), vals[i]...))
+		if err != nil || n == nil {
+			return
+		}
+		h, w = append([]byte(nil), n.Hash()...), n.Weight()
+		if d := descNodeBytes(vals[i]); len(d) > 0 {
+			kind = d[:1]
+		}
+	}()
+	if kind == "" {
+		return nil
+	}
+	if len(h) == 0 {
+		h = randBytes(r, 32)
+	}
+	entry := func(w uint64) []byte { return append(randBytes(r, 32), be64(w)...) }
+	nibbles := func(n int) []byte {
+		k := make([]byte, n)
+		for j := range k {
+			k[j] = byte(r.Intn(16))
+		}
+		return k
+	}
+	var subs [][]byte
+	if kind != "H" {
+		subs = append(subs, marshalBase(&wmpt.PersistNodeBase{HashNode: &wmpt.PersistHashNode{Hash: h, Weight: w}}))
+	}
+	if kind != "V" {
+		subs = append(subs, marshalBase(&wmpt.PersistNodeBase{Value: &wmpt.PersistNodeValue{Value: randBytes(r, 1+r.Intn(4)), Hash: h, Weight: w}}))
+	}
+	if kind != "B" {
+		ch := make([][]byte, 16)
+		a := r.Intn(16)
+		b := (a + 1 + r.Intn(15)) % 16
+		w1 := uint64(0)
+		if w > 1 {
+			w1 = 1 + uint64(r.Int63())%(w-1)
+		}
+		ch[a] = entry(w - w1)
+		switch r.Intn(3) {
+		case 0: // a second plain entry
+			ch[b] = entry(w1)
+		case 1: // an entry that embeds a short child (hash, weight, value hash, key)
+			ch[b] = append(append(entry(w1), randBytes(r, 32)...), nibbles(1+r.Intn(5))...)
+		}
+		subs = append(subs, marshalBase(&wmpt.PersistNodeBase{Branch: &wmpt.PersistNodeBranch{Hash: h, Children: ch}}))
+	}
+	if kind != "S" {
+		subs = append(subs, marshalBase(&wmpt.PersistNodeBase{Short: &wmpt.PersistNodeShort{Key: nibbles(1 + r.Intn(6)), Hash: h, Value: entry(w)}}))
+	}
+	if kind != "N" {
+		subs = append(subs, marshalBase(&wmpt.PersistNodeBase{NilNode: &wmpt.PersistNilNode{}}))
+	}
+	var out [][]byte
+	for _, sb := range subs {
+		v2 := append([][]byte(nil), vals...)
+		v2[i] = sb
+		out = append(out, marshalPairs(v2, -1))
+	}
+	return out
+}
+
+// substitutePositions: every position of a short pair list, a sample of 8 otherwise
+func substitutePositions(r *rand.Rand, n int) []int {
+	if n <= 8 {
+		ps := make([]int, n)
+		for i := range ps {
+			ps[i] = i
+		}
+		return ps
+	}
+	return r.Perm(n)[:8]
+}
+
 func genC15Wmpt(r *rand.Rand, tier string, idx int) []string {
-	nodes, proof, block, export := c15Sources(r)
+	comb := idx%100 == 19
+	nodes, proof, block, export := c15Sources(r, comb)
 	var ops []string
 	dnode := func(b []byte) { ops = append(ops, fmt.Sprintf("dnode %s %s", hxOrDash(b), descNodeBytes(b))) }
 	vproof := func(blk uint64, b []byte) {
@@ -381,6 +483,48 @@ func genC15Wmpt(r *rand.Rand, tier string, idx int) []string {
 	}
 	dtrie := func(b []byte) { ops = append(ops, fmt.Sprintf("dtrie %s %s", hxOrDash(b), descTrieBytes(b))) }
 
+	if comb {
+		// proofs and exports of maximal depth (up to 65 elements): the honest ones, a few corruptions of each, a null pair,
+		// prefixes, kind substitution at the two ends and in the middle (the encodings are some 10 kB: fewer variants)
+		vproof(block, proof)
+		dtrie(export)
+		dtrie(proof)
+		vproof(block, export)
+		for k, m := range mutateBytes(r, proof, false) {
+			if k%6 == 0 {
+				vproof(block, m)
+			}
+		}
+		for k, m := range mutateBytes(r, export, false) {
+			if k%6 == 0 {
+				dtrie(m)
+			}
+		}
+		pv, ev := pairValues(proof), pairValues(export)
+		for _, k := range []int{0, 1, len(pv) / 2, len(pv) - 1, len(pv)} {
+			vproof(block, marshalPairs(pv, k))
+			vproof(block, marshalPairs(pv[:k], -1))
+		}
+		for _, k := range []int{0, len(ev) / 2, len(ev)} {
+			dtrie(marshalPairs(ev, k))
+			dtrie(marshalPairs(ev[:k], -1))
+		}
+		for _, j := range []int{0, len(pv) / 2, len(pv) - 2, len(pv) - 1} {
+			if j >= 0 && j < len(pv) {
+				for _, m := range substituteKinds(r, pv, j) {
+					vproof(block, m)
+				}
+			}
+		}
+		for _, j := range []int{0, len(ev) / 2, len(ev) - 1} {
+			if j >= 0 && j < len(ev) {
+				for _, m := range substituteKinds(r, ev, j) {
+					dtrie(m)
+				}
+			}
+		}
+		return ops
+	}
 	switch idx % 4 {
 	case 0: // single nodes: real encodings and their corruptions
 		n := nodes[r.Intn(len(nodes))]
@@ -428,6 +572,15 @@ func genC15Wmpt(r *rand.Rand, tier string, idx int) []string {
 			v2[r.Intn(len(v2))] = nodes[r.Intn(len(nodes))]
 			vproof(block, marshalPairs(v2, -1))
 		}
+		// a node of another kind carrying the hash (and weight) the parent expects, at every position
+		for _, j := range substitutePositions(r, len(vals)) {
+			for _, m := range substituteKinds(r, vals, j) {
+				vproof(block, m)
+				if j%3 == 0 {
+					dtrie(m)
+				}
+			}
+		}
 		vproof(block, nil)
 	default: // path exports
 		dtrie(export)
@@ -461,6 +614,14 @@ func genC15Wmpt(r *rand.Rand, tier string, idx int) []string {
 			}
 			dtrie(marshalPairs(v2, -1))
 		}
+		for _, j := range substitutePositions(r, len(vals)) {
+			for _, m := range substituteKinds(r, vals, j) {
+				dtrie(m)
+				if j%3 == 0 {
+					vproof(block, m)
+				}
+			}
+		}
 		dtrie(nil)
 		// the export taken as a proof and vice versa
 		vproof(block, export)
@@ -472,7 +633,7 @@ func genC15Wmpt(r *rand.Rand, tier string, idx int) []string {
 func init() {
 	register(&Suite{
 		Name:        "c15wmpt",
-		Rule:        "malformed-input stream for wmpt.DeserializeNode / Deserialize / VerifyBlockProof: real node, proof and export encodings of generated tries and their corruptions (every truncation, CBOR head inflation/deflation, indefinite and huge lengths, type-key changes, byte changes/insertions/deletions), valid CBOR with arbitrary fields (child entries of every length 0..81, 0..100 children, short value fields of every length, overflowing weights, several kinds in one map), null pairs at every position, elements of other kinds spliced into proofs and exports; non-trivial = every case",
+		Rule:        "malformed-input stream for wmpt.DeserializeNode / Deserialize / VerifyBlockProof: real node, proof and export encodings of generated tries and their corruptions (every truncation, CBOR head inflation/deflation, indefinite and huge lengths, type-key changes, byte changes/insertions/deletions), valid CBOR with arbitrary fields (child entries of every length 0..81, 0..100 children, short value fields of every length, overflowing weights, several kinds in one map), null pairs at every position, elements of other kinds spliced into proofs and exports, every pair replaced by a well-formed node of each other kind that carries the hash and weight its parent expects; every 100th case: proofs and exports of maximal depth (comb-shaped tries: a branch at every nibble depth, up to 65 elements) and their corruptions; non-trivial = every case",
 		Gen:         genC15Wmpt,
 		Run:         runC15Wmpt,
 		CaseTimeout: 3 * time.Minute,
